@@ -163,20 +163,38 @@ def mark_targets(m):
         return list(m['cands'])
     if k == 'rec':
         return [m['start'], m['dest']]
+    if k == 'generic':
+        return [m['src']]
     raise ValueError(k)
+
+
+def node_ident(n) -> str:
+    """what get_node_id gives for the generated class"""
+    return ('node__' if n.get('defect') == 'no_base' else 'processor__') + n['name']
 
 
 def class_source(spec) -> str:
     L = ['import typing as t',
          'from ml_pipeline_engine.node.base_nodes import ProcessorBase, RecurrentProcessor',
-         'from ml_pipeline_engine.dag_builders.annotation.marks import Input, SwitchCase, InputOneOf, RecurrentSubGraph',
+         'from ml_pipeline_engine.node import build_node',
+         'from ml_pipeline_engine.types import NodeBase',
+         'from ml_pipeline_engine.dag_builders.annotation.marks import Input, SwitchCase, InputOneOf, RecurrentSubGraph, InputGeneric',
          'from harness.progen import E0, E1, E2, B0',
          '']
     nodes = spec['nodes']
     for i in topo_decl_order(spec):
         n = nodes[i]
+        defect = n.get('defect')
+        generic = bool(n.get('generic'))
         base = 'RecurrentProcessor' if n.get('is_rec') else 'ProcessorBase'
-        L.append(f'class {n["name"]}({base}):')
+        cname = n['name'] + ('Base' if generic else '') + ('_cls' if defect == 'not_class' else '')
+        if defect == 'no_base':
+            L.append(f'class {cname}:')
+            L.append('    node_type = None')
+            L.append('    tags = ()')
+            L.append('    attempts = None; delay = None; exceptions = None; use_default = False; verbose_name = None')
+        else:
+            L.append(f'class {cname}({base}):')
         L.append(f'    name = {n["name"]!r}')
         if n.get('attempts') is not None:
             L.append(f'    attempts = {n["attempts"]}')
@@ -195,9 +213,18 @@ def class_source(spec) -> str:
         for p in n.get('plain', []):
             params.append(f'{p}: str')
         for p, m in n['marks']:
-            params.append(f'{p}: {mark_source(nodes, m)}')
+            if generic and m['kind'] != 'generic':
+                params.append(f'{p}: InputGeneric(NodeBase)')
+            else:
+                params.append(f'{p}: {mark_source(nodes, m)}')
         if n.get('has_additional'):
             params.append('additional_data: t.Optional[t.Any] = None')
+        if defect == 'no_annotations':
+            params = [q.split(':')[0] for q in params] or ['zz']
+        if defect == 'unannotated':
+            if not params:
+                params.append('yy: int = 0')
+            params.insert(0, 'zz')
         names = [p for p in n.get('plain', [])] + [p for p, _ in n['marks']]
         kw = 'dict(' + ', '.join(f'{p}={p}' for p in names) + ')'
         extra = ''
@@ -214,7 +241,17 @@ def class_source(spec) -> str:
             L.append(f'        return H.sbody({i}, self, kw)')
         L.append('    def get_default(self, **kwargs):')
         L.append(f'        return H.default({i}, kwargs)')
+        if defect == 'no_process':
+            L.append('    process = None')
         L.append('')
+        if generic:
+            deps = ', '.join(f'{p}={mark_source(nodes, m)}' for p, m in n['marks'] if m['kind'] != 'generic')
+            L.append(f'{n["name"]} = build_node({cname}, node_name={n["name"]!r}, class_name={n["name"]!r}'
+                     + (', ' + deps if deps else '') + ')')
+            L.append('')
+        if defect == 'not_class':
+            L.append(f'{n["name"]} = {cname}()')
+            L.append('')
     return '\n'.join(L)
 
 
@@ -225,11 +262,13 @@ def mark_source(nodes, m):
         return f'Input({nm(m["src"])})'
     if k == 'switch':
         cases = ', '.join(f'({lab!r}, {nm(c)})' for lab, c in m['cases'])
-        return f'SwitchCase(switch={nm(m["decider"])}, cases=[{cases}], name={m["name"]!r})'
+        return f'SwitchCase(switch={nm(m["decider"])}, cases=[{cases}], name={m.get("name")!r})'
     if k == 'oneof':
         return 'InputOneOf([' + ', '.join(nm(c) for c in m['cands']) + '])'
     if k == 'rec':
         return f'RecurrentSubGraph(start_node={nm(m["start"])}, dest_node={nm(m["dest"])}, max_iterations={m["max"]})'
+    if k == 'generic':
+        return f'InputGeneric({nm(m["src"])})'
     raise ValueError(k)
 
 
@@ -252,7 +291,7 @@ def dump_graph(dag, spec):
     from ml_pipeline_engine.node import get_node_id  # noqa
     idx = {}
     for i, n in enumerate(spec['nodes']):
-        idx['processor__' + n['name']] = i
+        idx[node_ident(n)] = i
     k = len(spec['nodes'])
     for nid in sorted(dag.graph.nodes):
         if nid not in idx:
